@@ -147,7 +147,7 @@ def to_model_shape(obs):
 def parse_via(text, via="file", want=None):
     """Parse `text` through one of the public entry points.
     via: "file" (Chart.from_file on a StringIO), "path" / "path-bom" (Chart.from_filepath on a
-    UTF-8 file without / with a byte-order mark). want: None or [(INSTRUMENT, DIFFICULTY) names]."""
+    UTF-8 file without / with a byte-order mark), "path-str" (the path handed over as a str), "path-reuse". want: None or [(INSTRUMENT, DIFFICULTY) names]."""
     import io
     import os
     import tempfile
@@ -194,6 +194,8 @@ def parse_via(text, via="file", want=None):
             return Chart.from_filepath(Path(path), **kw)
         with os.fdopen(fd, "wb") as f:
             f.write((b"\xef\xbb\xbf" if via == "path-bom" else b"") + text.encode("utf-8"))
+        if via == "path-str":  # the path as a plain string, the way the README calls it
+            return Chart.from_filepath(path, **kw)
         return Chart.from_filepath(Path(path), **kw)
     finally:
         os.unlink(path)
